@@ -49,7 +49,7 @@ def run(ctx, report: Report) -> None:
         raise AnalysisError(f'only {len(classes)} Immutable classes found (anchor vanished)')
 
     # ---- R1 --------------------------------------------------------------------------------------------------
-    r1 = report.rule('C15-R1', 'the mutation surface is closed', floor=3)
+    r1 = report.rule('C15-R1', 'the mutation surface is closed', floor=2)
     for meth in ('__setattr__', '__delattr__'):
         fnq = f'Immutable.{meth}'
         fn = tmod.functions.get(fnq)
@@ -100,7 +100,7 @@ def run(ctx, report: Report) -> None:
                          f'the namespaces/custom maps inside compiled selectors and cache keys alias mutable user state')
 
     # ---- R2 --------------------------------------------------------------------------------------------------
-    r2 = report.rule('C15-R2', 'one field list: slots = constructor keywords = parameter order; pickle via constructor', floor=7)
+    r2 = report.rule('C15-R2', 'one field list: slots = constructor keywords = parameter order; pickle via constructor', floor=5)
     # which classes the module registers for pickling/copying: the module-level statements that mention pickle_register are
     # interpreted with a recording stand-in (a call per class, a loop over a display or over a table of classes, ...)
     from ..interp import Interp, PkgClass, Raised as _Raised
@@ -157,7 +157,7 @@ def run(ctx, report: Report) -> None:
     immutable_table(ctx, r2, classes[1:])
 
     # ---- R3 --------------------------------------------------------------------------------------------------
-    r3 = report.rule('C15-R3', 'contents are frozen; map hash is order independent', floor=9)
+    r3 = report.rule('C15-R3', 'contents are frozen; map hash is order independent', floor=6)
     for c in classes[1:]:
         mn, _, cn = c.partition('.')
         mod = src.mods[mn]
@@ -296,7 +296,7 @@ def run(ctx, report: Report) -> None:
         r4.violation('purge cache_clear', pmod.where(purge), 'purge() no longer clears the _cached_css_compile cache')
 
     # ---- R5 (texts compiled by interpretation, bounded) -----------------------------------------------------------------
-    r5 = report.rule('C15-R5', 'what a pattern compiles to under a custom map does not depend on maps compiled earlier (bounded)', floor=2)
+    r5 = report.rule('C15-R5', 'what a pattern compiles to under a custom map does not depend on maps compiled earlier (bounded)', floor=1)
     from .e2etab import custom_isolation_table
     custom_isolation_table(ctx, r5)
 
